@@ -39,6 +39,25 @@ bytes_json (HBuf *b, const char *key, const orc_uint8 *p, int n)
 
 typedef struct { OrcProgram *p; OrcStaticOpcode *op; int mult; int sa, sb, sd, sd2; int scalar_b; int is_acc; int var_d, var_d2, var_a, var_b; HCFn cfn; } Prog;
 
+static int tflags_given; static unsigned tflags;     /* path "<target>@<flags>": compile with exactly these target flags */
+static const char *cur_mode = "";
+static OrcCompileResult
+compile_prog (OrcProgram *p, OrcTarget *t, const char *path)
+{
+  OrcCompileResult res = (tflags_given && t) ? orc_program_compile_full (p, t, tflags) : orc_program_compile_for_target (p, t);
+  const char *dir = getenv ("H_LISTDIR");
+  if (dir && t && ORC_COMPILE_RESULT_IS_SUCCESSFUL (res) && orc_program_get_asm_code (p)) {
+    static int seq;
+    char fn[512];
+    FILE *f;
+    snprintf (fn, sizeof (fn), "%s/%d_%d.s", dir, (int) getpid (), seq++);
+    f = fopen (fn, "w");
+    if (f) { fputs (orc_program_get_asm_code (p), f); fclose (f); }
+    HEMIT ("\"e\":\"Listing\",\"op\":\"%s\",\"mode\":\"%s\",\"path\":\"%s\",\"file\":\"%s\"", p->name, cur_mode, path, fn);
+  }
+  return res;
+}
+static const char *cur_path = "";
 static int force_kind;          /* 0: arrays, 1: second operand is a parameter, 2: a constant */
 static orc_uint64 const_value;
 
@@ -78,7 +97,7 @@ make (Prog *g, const char *opname, int mult, OrcTarget *t, int *cls)
   orc_program_append_2 (g->p, opname, flags, args[0], args[1], args[2], args[3]);
   if (hc_mode == 'g') { *cls = hc_emit (g->p) ? 0 : 0x200; return 1; }
   if (hc_mode == 'r') { g->cfn = hc_next (); *cls = g->cfn ? 0 : 0x200; return 1; }
-  res = t ? orc_program_compile_for_target (g->p, t) : orc_program_compile_for_target (g->p, NULL);
+  res = compile_prog (g->p, t, cur_path);
   *cls = res;
   return 1;
 }
@@ -91,7 +110,7 @@ run_block (Prog *g, const char *path, int native, int n, int off, orc_uint64 bpa
   int ea = g->sa * g->mult, eb = g->sb * g->mult, ed = g->sd * g->mult, ed2 = g->sd2 * g->mult;
   orc_uint8 *A = bufA + 64 + off * ea, *B = bufB + 64 + off * (eb ? eb : 1), *D = bufD + 64 + off * (ed ? ed : 1),
       *D2 = bufD2 + 64 + off * (ed2 ? ed2 : 1);
-  if (hc_mode == 'g') return;         /* the operands were drawn; nothing is run while generating */
+  if (hc_mode == 'g' || getenv ("H_NORUN")) return;         /* the operands were drawn; nothing is run while generating */
   memset (&ex, 0, sizeof (ex));
   orc_executor_set_program (&ex, g->p);
   ex.n = n;
@@ -235,7 +254,7 @@ fmake (Prog *g, const char *opname, int mult, OrcTarget *t, int *cls, int kind, 
   orc_program_append_2 (g->p, opname, flags, args[0], args[1], args[2], args[3]);
   if (hc_mode == 'g') { *cls = hc_emit (g->p) ? 0 : 0x200; return 1; }
   if (hc_mode == 'r') { g->cfn = hc_next (); *cls = g->cfn ? 0 : 0x200; return 1; }
-  *cls = orc_program_compile_for_target (g->p, t);
+  *cls = compile_prog (g->p, t, cur_path);
   return 1;
 }
 
@@ -247,7 +266,7 @@ frun_block (Prog *g, const char *path, int native, int n, int off, orc_uint64 bs
   static orc_uint8 FA[MAXN * 8], FB[MAXN * 8], H[MAXN * 8];
   int ea = g->sa * g->mult, eb = g->sb * g->mult, ed = g->sd * g->mult, j, l, has_oracle = 0, ok = 1, k;
   orc_uint8 *A = bufA + 64 + off * ea, *B = bufB + 64 + off * (eb ? eb : 1), *D = bufD + 64 + off * ed;
-  if (hc_mode == 'g') return;
+  if (hc_mode == 'g' || getenv ("H_NORUN")) return;
   _mm_setcsr (0x1f80);
   for (j = 0; j < n; j++) for (l = 0; l < g->mult; l++) {
     orc_uint64 a = getv (A + j * ea + l * g->sa, g->sa), b = g->sb ? (g->scalar_b ? bscalar : getv (B + j * eb + l * g->sb, g->sb)) : 0, h = 0;
@@ -338,10 +357,18 @@ do_line (const char *path, char *line)
   int mult = 1, cls = 0, native = strcmp (path, "emu") != 0 && !hc_mode, i, j;
   unsigned long seed = 1;
   Prog g;
-  OrcTarget *t = native ? orc_target_get_by_name (path) : NULL;
+  OrcTarget *t = NULL;
   HRng r;
   static const int ns[] = { 1, 15, 16, 17, 33, 64, 7, 3, 31, 32, 100 };
+  if (native) {
+    char tn[16]; const char *at = strchr (path, '@');
+    snprintf (tn, sizeof (tn), "%.*s", at ? (int) (at - path) : 15, path);
+    t = orc_target_get_by_name (tn);
+    if (at) { tflags_given = 1; tflags = (unsigned) strtoul (at + 1, NULL, 0); }
+  }
+  cur_path = path;
   if (sscanf (line, "%31s %d %15s %lu", opname, &mult, mode, &seed) < 3) return;
+  cur_mode = mode;
   hc_begin_line (line);
   r.s = seed * 0x9e3779b97f4a7c15ULL + fnv1a (opname, strlen (opname));
   if (!strcmp (mode, "flt") || !strcmp (mode, "fpar") || !strcmp (mode, "fcon")) { do_float (path, opname, mult, mode, seed, native, t); return; }
